@@ -177,7 +177,7 @@ func (w *World) genBadNonceOrGas(st *state.StateDB) *TxInfo {
 func (w *World) genDeploy(st *state.StateDB) *TxInfo {
 	u := w.user()
 	from := w.UA(u)
-	kinds := []string{"store", "store", "revert", "log", "suicide", "outer", "badinit"}
+	kinds := []string{"store", "store", "revert", "log", "suicide", "outer", "badinit", "blockhash"}
 	k := kinds[w.R.Intn(len(kinds))]
 	var code []byte
 	variant := "valid"
@@ -190,6 +190,8 @@ func (w *World) genDeploy(st *state.StateDB) *TxInfo {
 		code = Initcode(codeLog)
 	case "suicide":
 		code = Initcode(codeSuicide)
+	case "blockhash":
+		code = Initcode(codeBlockhash())
 	case "outer":
 		var inner *Deployed
 		for i := range w.contracts {
@@ -257,6 +259,8 @@ func (w *World) call(u int, c Deployed, st *state.StateDB) *TxInfo {
 		w.R.Read(data)
 	case "suicide":
 		variant = "valid:selfdestruct"
+	case "blockhash":
+		variant = "valid:blockhash"
 	case "outer":
 		data = make([]byte, 32)
 		if w.R.Intn(2) == 0 {
